@@ -27,6 +27,7 @@ RULE = ("case = (sde_type, noise_type, sizes, SDE seed, adjoint-parameter subset
 ASSUMPTIONS = ["dense reference built with torch.autograd.functional.jacobian; agreement demanded to 1e-10 relative",
                "differentiability under enable_grad is checked by directional finite differences (eps=1e-6, tol 1e-5)"]
 REQUIRED_COUNTERS = ["drift_checked", "gprod_checked", "milstein_term_checked", "no_grad_checked", "grad_fd_checked",
+                     "grad_mode_values_checked",
                      "unused_param_cases", "subset_param_cases"]
 THRESHOLDS = {"rel": 1e-10, "fd_rel": 1e-5}
 
@@ -160,6 +161,17 @@ def run_case(case):
         cnt["no_grad_checked"] = cnt.get("no_grad_checked", 0) + 1
         if o.requires_grad or o.grad_fn is not None:
             viol.append({"mechanism": f"graph_left_under_no_grad:{nm}", "detail": ctx})
+    # the same values when autograd is enabled (both modes are used: plain .backward() runs the adjoint solve with
+    # autograd off, double-backward with it on)
+    with torch.enable_grad():
+        f_g = adj.f(t, aug)
+        gp_g = adj.g_prod(t, aug, v)
+        f2_g, gp2_g = adj.f_and_g_prod(t, aug, v)
+    cmp("drift_grad_mode", f_g, drift_ref.detach())
+    cmp("g_prod_grad_mode", gp_g, gp_ref.detach())
+    cmp("f_and_g_prod_drift_grad_mode", f2_g, drift_ref.detach())
+    cmp("f_and_g_prod_prod_grad_mode", gp2_g, gp_ref.detach())
+    cnt["grad_mode_values_checked"] = 1
     if tuple(f_out.shape) != (1, 2 * ny + P):
         viol.append({"mechanism": "adjoint_output_shape", "detail": f"{tuple(f_out.shape)} {ctx}"})
     if nt == "diagonal":
@@ -171,6 +183,10 @@ def run_case(case):
         ref = torch.einsum("ilj,jl,l->i", JG, aug_diff(Y0), v2.reshape(-1))
         cmp("milstein_term", gdg, ref.detach())
         cmp("milstein_g_prod", gp3, gp_ref.detach())
+        with torch.enable_grad():
+            gp3_g, gdg_g = adj.g_prod_and_gdg_prod(t, aug, v, v2)
+        cmp("milstein_term_grad_mode", gdg_g, ref.detach())
+        cmp("milstein_g_prod_grad_mode", gp3_g, gp_ref.detach())
         cnt["milstein_term_checked"] = 1
         if gdg.requires_grad:
             viol.append({"mechanism": "graph_left_under_no_grad:gdg", "detail": ctx})
